@@ -4,7 +4,7 @@
    [covers f o] says that fact f grants the required (db, tbl, privilege) o. *)
 From Coq Require Import List NArith Bool.
 Import ListNotations.
-From GMS Require Import Sys.Privs Sys.PrivsProofs.
+From GMS Require Import Sys.Privs Sys.PrivsProofs Sys.PrivsUnion Sys.PrivsSim.
 Open Scope N_scope.
 
 (* UserHasPrivileges on an active set: allowed iff SUPER, or every requirement is covered by a held fact *)
@@ -94,18 +94,50 @@ Theorem C39_revoke_removes_exactly_refuted :
 Proof. exact revoke_removes_exactly_refuted. Qed.
 Print Assumptions C39_revoke_removes_exactly_refuted.
 
-(* allow/deny for an account without granted roles, in every state: exactly the facts of its own set *)
-Theorem C39_allowed_iff_partial :
-  forall s u ops, (forall e, In e (edges s) -> seqb (snd e) u = false) ->
-    (allowed s u ops = true <->
-     has_user s u = true /\
-     (holds (privs_of s u) (FG SUPER) = true \/
-      forall o, In o ops -> exists f, holds (privs_of s u) f = true /\ covers f o = true)).
-Proof. exact allowed_iff_no_roles. Qed.
-Print Assumptions C39_allowed_iff_partial.
-(* missing for the full statement: holds (union_with a b) f = holds a f || holds b f (needs the unique-key invariant
-   of the maps), which would extend the theorem to accounts with roles, and the single simulation theorem over
-   histories against an abstract fact-set semantics *)
+(* UnionWith (user set united with a role's set) reads as the union of the facts, for every well-formed role set
+   (unique map keys: an invariant of every history, C39_wellformed_after_every_history) *)
+Theorem C39_union_with_facts :
+  forall a b f, wf_ps b = true -> holds (union_with a b) f = holds a f || holds b f.
+Proof. exact union_with_facts. Qed.
+Print Assumptions C39_union_with_facts.
+
+Theorem C39_wellformed_after_every_history : forall h, state_wf (run init h).
+Proof. intros h. apply run_wf. exact init_wf. Qed.
+Print Assumptions C39_wellformed_after_every_history.
+
+(* allow/deny for EVERY account, with or without roles, after EVERY history: allowed iff the account exists and SUPER is
+   held by it or by a role granted to it, or every requirement is covered by a fact held by it or by such a role
+   (every granted role is active: there is no SET ROLE at this pin) *)
+Theorem C39_allowed_iff :
+  forall h u ops,
+    let s := run init h in
+    allowed s u ops = true <->
+    has_user s u = true /\
+    ((holds (privs_of s u) (FG SUPER) || role_gives s u (FG SUPER)) = true \/
+     forall o, In o ops -> exists f, (holds (privs_of s u) f || role_gives s u f) = true /\ covers f o = true).
+Proof. exact allowed_iff_after_history. Qed.
+Print Assumptions C39_allowed_iff.
+
+(* ONE simulation theorem over whole histories: the fact machine keeps a plain list of facts per account (GRANT conses
+   the named fact, REVOKE filters it out, REVOKE ALL filters a level, DROP removes the account and its edges, roles are
+   edges) and decides by coverage; the model of the code decides identically after every history *)
+Theorem C39_history_simulation :
+  forall h u ops, allowed (run init h) u ops = aallowed (arun ainit h) u ops.
+Proof. exact history_simulation. Qed.
+Print Assumptions C39_history_simulation.
+
+(* the fact machine is the textbook one ("grant adds exactly, revoke removes exactly") except for the documented
+   database-level REVOKE that leaves no database-level fact of that database *)
+Theorem C39_fact_machine_grant_exact : forall l p fs f, amem f (a_add l p fs) = fact_eqb f (fact_at l p) || amem f fs.
+Proof. exact a_add_exact. Qed.
+Print Assumptions C39_fact_machine_grant_exact.
+
+Theorem C39_fact_machine_revoke_exact :
+  forall l p fs f,
+    (match l with LD d => existsb (is_fd d) (filter (fun g => negb (fact_eqb g (fact_at l p))) fs) = true | _ => True end) ->
+    amem f (a_rem l p fs) = negb (fact_eqb f (fact_at l p)) && amem f fs.
+Proof. exact a_rem_exact. Qed.
+Print Assumptions C39_fact_machine_revoke_exact.
 
 Theorem C39_dropped_account_denied : forall s u ops, allowed (exec s (SDrop u)) u ops = false.
 Proof. exact dropped_account_denied. Qed.
